@@ -76,7 +76,7 @@ func RunNewEpic(opts GlobalOptions) error {
 		if err != nil {
 			return err
 		}
-		created, err := createTask(dir, opts, "", true, title, body)
+		created, err := createTask(dir, opts, "", true, title, body, nil)
 		if err != nil {
 			return err
 		}
@@ -94,7 +94,7 @@ func RunNewEpic(opts GlobalOptions) error {
 		if err != nil {
 			return err
 		}
-		created, err := createTask(dir, opts, "", true, title, opts.BodyFlag)
+		created, err := createTask(dir, opts, "", true, title, opts.BodyFlag, nil)
 		if err != nil {
 			return err
 		}
@@ -127,7 +127,7 @@ func RunNewEpic(opts GlobalOptions) error {
 		return err
 	}
 
-	created, err := createTask(dir, opts, "", true, input.GetTitle(), input.GetBody())
+	created, err := createTask(dir, opts, "", true, input.GetTitle(), input.GetBody(), nil)
 	if err != nil {
 		return err
 	}
@@ -157,19 +157,12 @@ func RunNewTask(opts GlobalOptions) error {
 		if err != nil {
 			return err
 		}
-		created, err := createTask(dir, opts, opts.EpicFlag, false, title, body)
-		if err != nil {
-			return err
-		}
-
 		updates := buildFlagUpdates(opts)
 		delete(updates, "title")
 		delete(updates, "epic")
-		if len(updates) > 0 {
-			agentID := opts.AgentID
-			if err := applySetUpdates(dir, opts, created.ID, updates, agentID, true); err != nil {
-				return err
-			}
+		created, err := createTask(dir, opts, opts.EpicFlag, false, title, body, updates)
+		if err != nil {
+			return err
 		}
 
 		if opts.JSON {
@@ -194,19 +187,12 @@ func RunNewTask(opts GlobalOptions) error {
 		if err != nil {
 			return err
 		}
-		created, err := createTask(dir, opts, opts.EpicFlag, false, title, opts.BodyFlag)
-		if err != nil {
-			return err
-		}
-
 		updates := buildFlagUpdates(opts)
 		delete(updates, "title")
 		delete(updates, "epic")
-		if len(updates) > 0 {
-			agentID := opts.AgentID
-			if err := applySetUpdates(dir, opts, created.ID, updates, agentID, true); err != nil {
-				return err
-			}
+		created, err := createTask(dir, opts, opts.EpicFlag, false, title, opts.BodyFlag, updates)
+		if err != nil {
+			return err
 		}
 
 		if opts.JSON {
@@ -238,25 +224,21 @@ func RunNewTask(opts GlobalOptions) error {
 		return err
 	}
 
-	// Create the task
-	created, err := createTask(dir, opts, input.GetEpic(), false, input.GetTitle(), input.GetBody())
-	if err != nil {
-		return err
-	}
-
-	// If state/claim were provided, apply them via set logic
+	// If state/claim/result were provided, they are applied via set logic in
+	// the same step as the creation.
+	var updates map[string]string
 	if input.State != nil || input.Claim != nil || input.ResultPath != nil {
-		updates := input.ToKeyValueMap()
+		updates = input.ToKeyValueMap()
 		// Remove fields already handled by createTask
 		delete(updates, "title")
 		delete(updates, "body")
 		delete(updates, "epic")
-		if len(updates) > 0 {
-			agentID := opts.AgentID
-			if err := applySetUpdates(dir, opts, created.ID, updates, agentID, true); err != nil {
-				return err
-			}
-		}
+	}
+
+	// Create the task
+	created, err := createTask(dir, opts, input.GetEpic(), false, input.GetTitle(), input.GetBody(), updates)
+	if err != nil {
+		return err
 	}
 
 	if opts.JSON {
